@@ -131,6 +131,8 @@ type Server struct {
 	CommandHook   func(args [][]byte) resp.Reply
 	curOrigin     string // name / id of the connection whose request is being executed (read by the propagation)
 	curConn       int
+	// BadFormatKeys: RESTORE of these keys is answered "ERR Bad data format" (after the BUSYKEY and footer checks, as restoreCommand does).
+	BadFormatKeys map[string]bool
 	// QuietReq: requests for which it returns true are processed but appear in neither log (bulk scans that would drown the history).
 	QuietReq func(cmd string, args [][]byte, reply string) bool
 	// CountPred restricts which requests count towards CrashAfter (nil = all).
